@@ -178,9 +178,24 @@ pub mod vnet {
     }
     // std::thread::spawn: the closure runs, so its body's obligations are checked with no assumption on its inputs
     #[verifier::external_body]
-    pub fn spawn<F: FnOnce() -> ()>(f: F)
+    pub fn spawn<F: FnOnce() -> ()>(f: F) -> (h: JoinHandle<()>)
         requires f.requires(()) //@C17.connection_thread_cannot_panic
     { unimplemented!() }
+    // std::thread::JoinHandle.  A connection thread ends when its peer lets it end: whether it has finished is unknown until
+    // `is_finished` says so, and `join` on a thread not known to have finished waits for as long as that peer likes.
+    #[verifier::external_body]
+    #[verifier::reject_recursive_types(T)]
+    pub struct JoinHandle<T> { _p: std::marker::PhantomData<T> }
+    pub struct ThreadPanic { pub opaque: u8 }
+    impl<T> JoinHandle<T> {
+        pub uninterp spec fn finished(&self) -> bool;
+        #[verifier::external_body]
+        pub fn is_finished(&self) -> (b: bool) ensures b ==> self.finished() { unimplemented!() }
+        #[verifier::external_body]
+        pub fn join(self) -> (r: std::result::Result<T, ThreadPanic>)
+            requires self.finished() //@C17.the_accept_loop_never_waits_for_a_connection_thread
+        { unimplemented!() }
+    }
     pub open spec fn starts_with_spec(s: Seq<char>, p: Seq<char>) -> bool { s.len() >= p.len() && s.take(p.len() as int) == p }
     // str::starts_with(&str)
     #[verifier::external_body]
